@@ -66,11 +66,17 @@ def wasserstein_lp(a, b, C):
         A_eq[n + j, j::m] = 1.0
     # make the two marginals sum to exactly the same mass, as any exact solver needs
     b = b * (a.sum() / b.sum())
-    res = linprog(np.asarray(C, dtype=float).reshape(-1), A_eq=A_eq[:-1], b_eq=np.concatenate([a, b])[:-1],
+    # HiGHS works with absolute feasibility / optimality tolerances (1e-7): solve the problem for the cost matrix
+    # normalised to unit magnitude and scale the optimum back, so that tiny or huge costs are solved as accurately
+    C = np.asarray(C, dtype=float)
+    mag = float(np.max(np.abs(C)))
+    if mag == 0.0:
+        return 0.0
+    res = linprog((C / mag).reshape(-1), A_eq=A_eq[:-1], b_eq=np.concatenate([a, b])[:-1],
                   bounds=(0, None), method="highs")
     if res.status != 0:
         raise RuntimeError("LP reference failed: " + res.message)
-    return float(res.fun)
+    return float(res.fun) * mag
 
 
 def distance(name, q, p, A):
